@@ -341,34 +341,41 @@ def hexBody (upperX : Bool) : List Nat → Option (List Nat)
   | 48 :: 88 :: rest => if upperX then some rest else none
   | _ => none
 
-/-- one flag text: hexadecimal, else decimal if it parses, else a registered flag name. -/
-def maskPart (upperX : Bool) (byName : Table) (p : List Nat) : Option Nat :=
-  match hexBody upperX p with
-  | some rest => match parseInt 16 32 rest with
-    | some i => some (toU32 i)
-    | none => none
+/-- one flag text: hexadecimal, else decimal if it parses, else a registered flag name.
+    `textForm = false`: xmlReader.Bitmask / jsonReader.Bitmask — prefix `0x`, the digits are an unsigned
+    32-bit pattern (`ParseUint(·,16,32)` then `int32(uint32(·))`, since fix a841a1f);
+    `textForm = true`: bitmasks.go maskUnmarshalText — prefix `0x` or `0X`, the digits are a SIGNED 32-bit
+    number (`ParseInt(·,16,32)`: `0x80000000` is out of range). -/
+def maskPart (textForm : Bool) (byName : Table) (p : List Nat) : Option Nat :=
+  match hexBody textForm p with
+  | some rest =>
+    if textForm then
+      match parseInt 16 32 rest with
+      | some i => some (toU32 i)
+      | none => none
+    else parseUint 16 32 rest
   | none => match parseInt 10 32 p with
     | some i => some (toU32 i)
     | none => lookup (pack p) byName
 
 /-- `result |= int32(parsed)` over the parts; the first error aborts. -/
-def maskFold (upperX : Bool) (byName : Table) : List (List Nat) → Nat → Option Nat
+def maskFold (textForm : Bool) (byName : Table) : List (List Nat) → Nat → Option Nat
   | [], acc => some acc
-  | p :: ps, acc => match maskPart upperX byName p with
-    | some b => maskFold upperX byName ps (acc ||| b)
+  | p :: ps, acc => match maskPart textForm byName p with
+    | some b => maskFold textForm byName ps (acc ||| b)
     | none => none
 
 /-- xmlReader.Bitmask: `strings.Fields`, then `TrimSpace` of each part. -/
 def maskFromTextXml (byName : Table) (s : List Nat) : Option Nat :=
   maskFold false byName ((fields s).map trim) 0
 
-/-- jsonReader.Bitmask on a string value: `strings.Split(val, "|")`, then `TrimSpace` of each part
-    (an empty part is looked up as a name). -/
+/-- jsonReader.Bitmask on a string value: `strings.Split(val, "|")`, `TrimSpace` of each part, empty
+    parts skipped (since fix 3a0632c). -/
 def maskFromTextJson (byName : Table) (s : List Nat) : Option Nat :=
-  maskFold false byName ((splitOn 124 s).map trim) 0
+  maskFold false byName (((splitOn 124 s).map trim).filter (fun p => !p.isEmpty)) 0
 
 /-- bitmasks.go `maskUnmarshalText`: split on `|` if there is one, else on white space; trim; skip
-    empty parts; `0x` and `0X`. -/
+    empty parts; `0x` and `0X`, signed. -/
 def maskFromTextUnmarshal (byName : Table) (s : List Nat) : Option Nat :=
   let parts := if s.contains 124 then splitOn 124 s else fields s
   maskFold true byName ((parts.map trim).filter (fun p => !p.isEmpty)) 0
